@@ -245,6 +245,69 @@ class Grammar:
             return None
         return go(self.rules[name]["expr"], 0, (name,)) == n
 
+    # ---- lexical language of a token rule: character-level PEG acceptance (no implicit skipping inside atomic rules)
+    _CLASSES = {
+        "ASCII_DIGIT": lambda ch: ch.isdigit() and ch.isascii(),
+        "ASCII_NONZERO_DIGIT": lambda ch: ch in "123456789",
+        "ASCII_ALPHA": lambda ch: ch.isascii() and ch.isalpha(),
+        "ASCII_ALPHA_UPPER": lambda ch: ch.isascii() and ch.isalpha() and ch.isupper(),
+        "ASCII_ALPHA_LOWER": lambda ch: ch.isascii() and ch.isalpha() and ch.islower(),
+        "ASCII_ALPHANUMERIC": lambda ch: ch.isascii() and ch.isalnum(),
+        "ASCII_HEX_DIGIT": lambda ch: ch in "0123456789abcdefABCDEF",
+        "ASCII": lambda ch: ch.isascii(),
+        "ANY": lambda ch: True,
+    }
+
+    def lex_accepts(self, name, s):
+        """does token rule `name` match exactly the string s (PEG semantics, character level)?"""
+        n = len(s)
+
+        def go(e, pos, stack):
+            k = e["k"]
+            if k == "str":
+                return pos + len(e["s"]) if s.startswith(e["s"], pos) else None
+            if k == "insens":
+                return pos + len(e["s"]) if s[pos:pos + len(e["s"])].lower() == e["s"].lower() else None
+            if k == "range":
+                return pos + 1 if pos < n and e["a"] <= s[pos] <= e["b"] else None
+            if k == "ident":
+                r = e["s"]
+                if r == "SOI":
+                    return pos if pos == 0 else None
+                if r == "EOI":
+                    return pos if pos == n else None
+                if r in self._CLASSES and r not in self.rules:
+                    return pos + 1 if pos < n and self._CLASSES[r](s[pos]) else None
+                if r not in self.rules or r in stack:
+                    return None
+                return go(self.rules[r]["expr"], pos, stack + (r,))
+            if k == "seq":
+                m = go(e["a"], pos, stack)
+                return None if m is None else go(e["b"], m, stack)
+            if k == "choice":
+                m = go(e["a"], pos, stack)
+                return m if m is not None else go(e["b"], pos, stack)
+            if k == "opt":
+                m = go(e["e"], pos, stack)
+                return pos if m is None else m
+            if k == "rep":
+                cnt = 0
+                while e["max"] is None or cnt < e["max"]:
+                    m = go(e["e"], pos, stack)
+                    if m is None or m == pos:
+                        break
+                    pos = m
+                    cnt += 1
+                return pos if cnt >= e["min"] else None
+            if k == "pos":
+                return pos if go(e["e"], pos, stack) is not None else None
+            if k == "neg":
+                return pos if go(e["e"], pos, stack) is None else None
+            if k == "push":
+                return go(e["e"], pos, stack)
+            return None
+        return go(self.rules[name]["expr"], 0, (name,)) == n
+
     def strings_under(self, e, stack=()):
         """string terminals reachable as alternatives of e (through choices and rule references)"""
         k = e["k"]
